@@ -1,51 +1,162 @@
 (* C05 — Installed package bytes are authenticated end to end.
    Property theorems only; proofs are in Proofs/PkgAuthProofs.v.
 
-   Statements are about Model/PkgAuth.v: expandPackage with verifyExpanded (fix
-   6d335fb), ExpandApk's per-file check, cachedPackage / cachePackage, the
-   process-wide memo of expanded packages keyed by the pair (URL, checksum
-   string) (fixes 9459281, d69e0fd), and the lazy and streaming installs. [b64] is
-   base64.StdEncoding.DecodeString, universally quantified like the hashes.
-   SHA-1 and SHA-256 are universally quantified functions: the chain theorems
-   speak about equality of digests; the consequence for bytes
-   (c05_data_authenticated) takes collision resistance as explicit hypotheses.
+   Statements are about Model/PkgAuth.v: ExpandApk's cut of the served stream into
+   gzip members and which hash covers which bytes, its per-file check,
+   expandPackage with verifyExpanded (fix 6d335fb), cachedPackage / cachePackage
+   over the three cache files, the process-wide memo of expanded packages keyed by
+   the pair (URL, checksum string) (fixes 9459281, d69e0fd; successes only since
+   6e5c862), and the lazy and streaming installs.
+   SHA-1, SHA-256, base64 and the decoders (first tar header of a member, .PKGINFO
+   of a control member, gunzip, untar) are universally quantified functions: the
+   chain theorems speak about equality of digests; the consequences for bytes
+   (c05_end_to_end, c05_data_authenticated, c05_content_addressing) take
+   collision resistance as explicit hypotheses.
    [Chain h x] (Spec/PkgAuthSpec.v): the control section's SHA-1 is the checksum
-   the handle records (Q1 prefix optional), every non-empty datahash it records
-   is the hex SHA-256 of the data section, every regular file matches its
-   recorded checksum. *)
+   the handle records (Q1 prefix optional), the control file holds those bytes and
+   what was read from it is what they say, every non-empty datahash it records is
+   the hex SHA-256 of the data section, the entries installs read are the ones
+   inside those hashed bytes, every regular file matches its recorded checksum.
+
+   Fixed finding C05-F3 (ExpandApk, fix 3bc1979): a stream of exactly two members whose
+   first member starts with a .SIGN.* entry used to be accepted with the first member as
+   control section and the second — hashed with SHA-1, never run through checkSums — as
+   data section. The cut of today refuses it (c05_sign_first_two_members_refused); the
+   old cut is kept as [expand_apk_with ... true] for the regression statement
+   c05_old_cut_refuted only. *)
 From Apko Require Import Base.Prelude Model.PkgAuth Spec.PkgAuthSpec Proofs.PkgAuthProofs.
 Open Scope string_scope. Open Scope list_scope.
 
-(* Without a cache the chain holds for every handle, every served package and
-   every state: no hypothesis at all. *)
-Theorem c05_chain_no_cache : forall sha1 sha256 b64 m h served x k' m',
-  expand_package sha1 sha256 b64 m None h served = (XOk x, k', m') -> Chain sha1 sha256 b64 h x.
-Proof.
-  intros sha1 sha256 b64 m h served x k' m' H. unfold expand_package in H.
-  destruct (expand_uncached sha1 sha256 b64 None h served) as [r k1] eqn:E. inversion H; subst.
-  eapply (expand_uncached_chain sha1 sha256 b64 None); eauto; exact I.
-Qed.
+(* ---- (a) the cut: which bytes the hashes cover ------------------------------------------
+   A successful ExpandApk accounts for EVERY byte served: nothing follows the last
+   member; the control section is exactly one member — the first, or the second
+   behind a signature member — and its hash is the SHA-1 of exactly that member;
+   the data section is ALL remaining members together; what is handed on was
+   decoded from exactly those bytes; the data hash is the SHA-256 of exactly the data
+   bytes and every regular file in them passed the per-file check. No byte an
+   installer reads lies outside the hashed ranges. *)
+Theorem c05_hashes_cover_members : forall sha1 sha256 first_name ctl_view gunzip untar s e,
+  expand_apk sha1 sha256 first_name ctl_view gunzip untar s = FOk e ->
+  s_trail s = [] /\
+  (exists pre rest, s_members s = pre ++ c_raw (e_ctl e) :: rest /\ (pre = [] \/ exists sg, pre = [sg]) /\
+                    rest <> [] /\ e_gz e = List.concat rest) /\
+  e_ch e = sha1 (c_raw (e_ctl e)) /\ mk_ctl ctl_view (c_raw (e_ctl e)) = Some (e_ctl e) /\
+  dat_view gunzip untar (e_gz e) = Some (e_files e) /\ gunzip (e_gz e) = Some (e_tar e) /\
+  e_dh e = sha256 (e_gz e) /\ check_sums sha1 (e_files e) = true.
+Proof. exact hashes_cover_members. Qed.
+Print Assumptions c05_hashes_cover_members.
+
+(* fixed finding C05-F3: a stream of exactly two members whose first member starts with a
+   .SIGN.* entry is refused, with or without a cache (unless the warm cache already
+   answers the request), whatever the handle records ... *)
+Theorem c05_sign_first_two_members_refused : forall sha1 sha256 b64 first_name ctl_view gunzip untar k h s,
+  sig2 first_name s = true ->
+  (match k with Some kc => fst (cached_package b64 ctl_view gunzip untar kc h) | None => None end) = None ->
+  fst (expand_uncached sha1 sha256 b64 first_name ctl_view gunzip untar k h (Some s)) = XErr EExpand.
+Proof. exact sig2_refused. Qed.
+Print Assumptions c05_sign_first_two_members_refused.
+
+(* ... REGRESSION WITNESS about the HYPOTHETICAL old cut only (ExpandApk before fix
+   3bc1979 = [expand_apk_with ... true]; the model of today's code is [expand_apk]): for
+   the stream [wit_sig2] it took the first member for the control section and the second
+   for the data section, hashed the latter with the SHA-1 stand-in instead of the SHA-256
+   one, and handed on a regular file whose body disagrees with its recorded checksum;
+   today's cut refuses the same stream. *)
+Theorem c05_old_cut_refuted :
+  sig2 wit_first wit_sig2 = true /\
+  expand_apk idf sha256' wit_first wit_ctl wit_gunzip wit_untar wit_sig2 = FErr EExpand /\
+  exists e, expand_apk_with idf sha256' wit_first wit_ctl wit_gunzip wit_untar true wit_sig2 = FOk e /\
+    c_raw (e_ctl e) = [9]%N /\ e_gz e = [6]%N /\
+    e_dh e = idf (e_gz e) /\ e_dh e <> sha256' (e_gz e) /\ check_sums idf (e_files e) = false.
+Proof. exact old_cut_unchecked. Qed.
+Print Assumptions c05_old_cut_refuted.
+
+(* ---- the chain ----------------------------------------------------------------------------
+   Without a cache the chain holds for every handle, every served stream and every
+   state: no hypothesis at all. *)
+Theorem c05_chain_no_cache : forall sha1 sha256 b64 first_name ctl_view gunzip untar m h served x k' m',
+  expand_package sha1 sha256 b64 first_name ctl_view gunzip untar m None h served = (XOk x, k', m') ->
+  Chain sha1 sha256 b64 ctl_view gunzip untar h x.
+Proof. exact expand_package_no_cache_chain. Qed.
 Print Assumptions c05_chain_no_cache.
 
-(* With a cache: if the process memo and the cache directory satisfy their
-   invariants and an existing cache destination holds the same member (content
-   addressing), every successful expansion — fetched, served from the warm cache,
-   or answered from the memo — satisfies the chain, for EVERY handle, and the
-   invariants are re-established; with c05_initial_state this extends to every
-   sequence of requests of a process and every sequence of processes sharing a
-   cache directory. (Unconditional in the handle since the memo key is the pair
-   (URL, checksum string): fixes 9459281 and d69e0fd.) *)
-Theorem c05_chain : forall sha1 sha256 b64 m k h served r k' m',
-  memo_inv sha1 sha256 b64 m -> opt_cache_ok sha1 sha256 k -> opt_dst_same sha1 sha256 k served ->
-  expand_package sha1 sha256 b64 m k h served = (r, k', m') ->
-  (forall x, r = XOk x -> Chain sha1 sha256 b64 h x) /\ opt_cache_ok sha1 sha256 k' /\ memo_inv sha1 sha256 b64 m'.
+(* With a cache: if the process memo and the cache directory satisfy their invariants
+   and an existing cache destination holds the same bytes (content addressing; a
+   consequence of collision resistance, see c05_content_addressing), every successful
+   expansion — fetched, served from the warm cache (with or without the uncompressed
+   tar), or answered from the memo — satisfies the chain, for EVERY handle and every
+   served stream, and the invariants are re-established; with c05_initial_state this
+   extends to every sequence of requests of a process and every sequence of processes
+   sharing a cache directory. *)
+Theorem c05_chain : forall sha1 sha256 b64 first_name ctl_view gunzip untar m k h served r k' m',
+  memo_inv sha1 sha256 b64 ctl_view gunzip untar m -> opt_cache_ok sha1 sha256 gunzip untar k ->
+  opt_dst_same sha1 sha256 first_name ctl_view gunzip untar k served ->
+  expand_package sha1 sha256 b64 first_name ctl_view gunzip untar m k h served = (r, k', m') ->
+  (forall x, r = XOk x -> Chain sha1 sha256 b64 ctl_view gunzip untar h x) /\
+  opt_cache_ok sha1 sha256 gunzip untar k' /\ memo_inv sha1 sha256 b64 ctl_view gunzip untar m'.
 Proof. exact expand_package_chain. Qed.
 Print Assumptions c05_chain.
 
-Theorem c05_initial_state : forall sha1 sha256 b64,
-  memo_inv sha1 sha256 b64 [] /\ cache_ok sha1 sha256 empty_cache.
+Theorem c05_initial_state : forall sha1 sha256 b64 ctl_view gunzip untar,
+  memo_inv sha1 sha256 b64 ctl_view gunzip untar [] /\ cache_ok sha1 sha256 gunzip untar empty_cache.
 Proof. intros. split; [intros u r x H; discriminate H | apply empty_cache_ok]. Qed.
 Print Assumptions c05_initial_state.
+
+(* ---- end to end ----------------------------------------------------------------------------
+   Hypotheses, all listed here: collision resistance of
+   SHA-1 and of hex∘SHA-256 on the byte strings in play (stated for the oracles);
+   the memo and cache invariants (which hold initially and are preserved, see above);
+   the handle's checksum string
+   decodes to C = SHA-1 of a control member [gc] (what the signed index promises,
+   C04) which records a non-empty datahash = hex SHA-256 of data bytes [gd].
+   Conclusion, for the cold, warm-cache and process-memo paths and both install paths
+   alike: the control section used is [gc] (package info and control file), the data
+   section is [gd], the installed tree is exactly the install of [gd]'s own entries —
+   every installed file's bytes are the body of a regular entry of [gd] (of that name,
+   or of the name a hard-link entry of [gd] refers to), each matching its recorded
+   checksum — and the invariants hold again afterwards. *)
+Theorem c05_end_to_end : forall sha1 sha256 b64 first_name ctl_view gunzip untar,
+  (forall a b, sha1 a = sha1 b -> a = b) ->
+  (forall a b, hex (sha256 a) = hex (sha256 b) -> a = b) ->
+  forall m k h served x k' m' lazy out gc cg dh gd,
+  memo_inv sha1 sha256 b64 ctl_view gunzip untar m -> opt_cache_ok sha1 sha256 gunzip untar k ->
+  expand_package sha1 sha256 b64 first_name ctl_view gunzip untar m k h served = (XOk x, k', m') ->
+  install lazy x = Some out ->
+  h_sum b64 h = Some (sha1 gc) -> mk_ctl ctl_view gc = Some cg ->
+  In dh (c_datahash cg) -> dh <> "" -> dh = hex (sha256 gd) ->
+  (x_ctl x = cg /\ x_ctl_file x = gc /\ d_raw (x_dat x) = gd) /\
+  (exists fs, dat_view gunzip untar gd = Some fs /\ d_files (x_dat x) = fs /\
+     (forall f, In f fs -> file_ok sha1 f) /\
+     install_files lazy [] (data_section fs) = Some out /\
+     forall n b, In (n, b) out ->
+       exists f, In f fs /\ f_kind f = FReg /\ f_body f = b /\
+                 (f_name f = n \/ exists l, In l fs /\ f_kind l = FLink /\ f_name l = n)) /\
+  opt_cache_ok sha1 sha256 gunzip untar k' /\ memo_inv sha1 sha256 b64 ctl_view gunzip untar m'.
+Proof. exact end_to_end. Qed.
+Print Assumptions c05_end_to_end.
+
+(* the chain pins the installed members to the ones the index entry describes (the
+   step of the theorem above that uses collision resistance) *)
+Theorem c05_data_authenticated : forall sha1 sha256 b64 ctl_view gunzip untar,
+  (forall a b, sha1 a = sha1 b -> a = b) ->
+  (forall a b, hex (sha256 a) = hex (sha256 b) -> a = b) ->
+  forall h x gc cg dh gd,
+  h_sum b64 h = Some (sha1 gc) -> mk_ctl ctl_view gc = Some cg -> In dh (c_datahash cg) -> dh <> "" -> dh = hex (sha256 gd) ->
+  Chain sha1 sha256 b64 ctl_view gunzip untar h x ->
+  x_ctl x = cg /\ x_ctl_file x = gc /\ d_raw (x_dat x) = gd /\ dat_view gunzip untar gd = Some (d_files (x_dat x)).
+Proof. exact chain_pins_bytes. Qed.
+Print Assumptions c05_data_authenticated.
+
+(* content addressing: under collision resistance and the population invariant, a
+   destination that cachePackage finds already present holds the very bytes it was
+   about to advertise — the hypothesis [opt_dst_same] of c05_chain *)
+Theorem c05_content_addressing : forall sha1 sha256 first_name ctl_view gunzip untar,
+  (forall a b, sha1 a = sha1 b -> a = b) ->
+  (forall a b, hex (sha256 a) = hex (sha256 b) -> a = b) ->
+  forall k served, opt_cache_ok sha1 sha256 gunzip untar k ->
+  opt_dst_same sha1 sha256 first_name ctl_view gunzip untar k served.
+Proof. exact opt_dst_same_of_cr. Qed.
+Print Assumptions c05_content_addressing.
 
 (* the two fixed memo defects as regression witnesses: requests that the
    URL-only key (C05-F1) resp. the joined URL@checksum key (C05-F2) identified
@@ -54,42 +165,46 @@ Theorem c05_memo_key_separates :
   (h_url wit_h1 ++ "@" ++ h_chk wit_h1 = h_url wit_h2 ++ "@" ++ h_chk wit_h2)%string /\
   h_url wit_h1 = h_url wit_h3 /\
   exists r1 k1 m1,
-    expand_package idf idf wit_b64 [] (Some empty_cache) wit_h1 (Some wit_apk) = (r1, k1, m1) /\
+    expand_package idf idf wit_b64 wit_first wit_ctl wit_gunzip wit_untar [] (Some empty_cache) wit_h1 (Some wit_apk) = (r1, k1, m1) /\
     (exists x, r1 = XOk x) /\
-    fst (fst (expand_package idf idf wit_b64 m1 k1 wit_h2 (Some wit_apk))) = XErr EVerify /\
-    fst (fst (expand_package idf idf wit_b64 m1 k1 wit_h3 (Some wit_apk))) = XErr EVerify.
+    fst (fst (expand_package idf idf wit_b64 wit_first wit_ctl wit_gunzip wit_untar m1 k1 wit_h2 (Some wit_apk))) = XErr EVerify /\
+    fst (fst (expand_package idf idf wit_b64 wit_first wit_ctl wit_gunzip wit_untar m1 k1 wit_h3 (Some wit_apk))) = XErr EVerify.
 Proof. exact pair_key_separates. Qed.
 Print Assumptions c05_memo_key_separates.
 
-(* what gets installed is the regular files of the expanded data section, byte
-   for byte, on both install paths *)
-Theorem c05_installed_bytes : forall lazy x out,
-  install lazy x = Some out -> out = reg_files (data_section (d_files (x_dat x))).
-Proof. intros lazy x out H. eapply install_files_view; exact H. Qed.
+(* ---- installation ---------------------------------------------------------------------------
+   what gets installed under a name is, on both install paths, the body of a regular
+   entry of that name in the expanded data section, or the name is a hard-link entry's
+   and the bytes are the body of a regular entry of that data section *)
+Theorem c05_installed_bytes : forall lazy x out n b,
+  install lazy x = Some out -> In (n, b) out ->
+  exists f, In f (data_section (d_files (x_dat x))) /\ f_name f = n /\
+    ((f_kind f = FReg /\ f_body f = b) \/
+     (f_kind f = FLink /\ exists g, In g (data_section (d_files (x_dat x))) /\ f_kind g = FReg /\ f_body g = b)).
+Proof. exact installed_bytes. Qed.
 Print Assumptions c05_installed_bytes.
 
-(* consequence under collision resistance (hypotheses on the oracles) and "what
-   a control section says is determined by its bytes": if the handle records the
-   SHA-1 of genuine control bytes that record a data hash, the installed control
-   and data bytes are the genuine ones *)
-Theorem c05_data_authenticated : forall sha1 sha256 b64 h x g,
-  (forall a b, sha1 a = sha1 b -> a = b) ->
-  (forall a b, hex (sha256 a) = hex (sha256 b) -> a = b) ->
-  (forall c c', c_raw c = c_raw c' -> c_datahash c = c_datahash c') ->
-  h_sum b64 h = Some (sha1 (c_raw (a_ctl g))) ->
-  (exists dh, In dh (c_datahash (a_ctl g)) /\ dh <> "" /\ dh = hex (sha256 (d_raw (a_dat g)))) ->
-  Chain sha1 sha256 b64 h x ->
-  c_raw (x_ctl x) = c_raw (a_ctl g) /\ d_raw (x_dat x) = d_raw (a_dat g).
-Proof. exact chain_pins_bytes. Qed.
-Print Assumptions c05_data_authenticated.
+(* (c) the two install paths and their difference: whenever the lazy install (tarfs)
+   succeeds, the streaming install succeeds with the same bytes; and when only the
+   streaming install succeeds, some regular file has NO recorded checksum (the
+   streaming path recomputes it, the lazy path refuses) or some symlink has no
+   decodable one (the streaming path never looks). Neither path compares a body with
+   anything: that was done once, in ExpandApk. *)
+Theorem c05_install_paths : forall x,
+  (forall out, install true x = Some out -> install false x = Some out) /\
+  (forall out, install false x = Some out -> install true x = None ->
+     exists f, In f (data_section (d_files (x_dat x))) /\
+       ((f_kind f = FReg /\ f_sum f = SumNone) \/ (f_kind f = FSym /\ forall d, f_sum f <> SumSome d))).
+Proof. exact install_paths. Qed.
+Print Assumptions c05_install_paths.
 
-(* per-file checksums, as the code has them: a regular file whose body
-   disagrees with its recorded checksum aborts the expansion of fetched bytes; *)
-Theorem c05_per_file_mismatch_aborts : forall sha1 sha256 b64 k h a f d,
-  (match k with Some kc => cached_package b64 kc h | None => None end) = None ->
-  In f (d_files (a_dat a)) -> f_kind f = FReg -> f_sum f = SumSome d -> d <> sha1 (f_body f) ->
-  expand_uncached sha1 sha256 b64 k h (Some a) = (XErr ESums, k).
-Proof. exact expand_uncached_file_mismatch. Qed.
+(* per-file checksums, as the code has them: a regular file whose body disagrees
+   with its recorded checksum aborts the expansion of fetched bytes; *)
+Theorem c05_per_file_mismatch_aborts : forall sha1 sha256 first_name ctl_view gunzip untar s u t fs f d,
+  cut first_name s = Some u -> gunzip (u_dat u) = Some t -> untar t = Some fs ->
+  In f fs -> f_kind f = FReg -> f_sum f = SumSome d -> d <> sha1 (f_body f) ->
+  expand_apk sha1 sha256 first_name ctl_view gunzip untar s = FErr ESums.
+Proof. exact file_mismatch_aborts. Qed.
 Print Assumptions c05_per_file_mismatch_aborts.
 
 (* a MISSING checksum passes that check; it aborts the lazy (tarfs) install ... *)
@@ -99,72 +214,134 @@ Theorem c05_missing_checksum_lazy_aborts : forall x f,
 Proof. intros x f. apply lazy_missing_aborts. Qed.
 Print Assumptions c05_missing_checksum_lazy_aborts.
 
-(* ... and is recomputed by the streaming install, which fails only on an
-   undecodable record of a regular file *)
-Theorem c05_missing_checksum_streaming_recomputed : forall x,
-  (forall f, In f (data_section (d_files (x_dat x))) -> f_kind f = FReg -> f_sum f <> SumBad) ->
-  install false x = Some (reg_files (data_section (d_files (x_dat x)))).
-Proof. intros x. apply streaming_installs. Qed.
+(* ... and is recomputed by the streaming install: the per-file check and the
+   streaming install treat the package exactly like the one that records the right
+   checksum in that place *)
+Theorem c05_missing_checksum_streaming_recomputed : forall sha1 fs seen,
+  install_files false seen (List.map (fill sha1) fs) = install_files false seen fs /\
+  check_sums sha1 (List.map (fill sha1) fs) = check_sums sha1 fs.
+Proof. intros. split; [apply streaming_recomputes | apply fill_check_sums]. Qed.
 Print Assumptions c05_missing_checksum_streaming_recomputed.
 
-(* the warm cache: a hit returns the members stored under the expected checksum
+(* (d) hard links and symlinks: the per-file check never looks at them — two data
+   sections that differ only in where their links point pass or fail it together — so
+   a link's target name is authenticated by the data hash alone (and by nothing when
+   the control section records no datahash, Example c05_link_retargeted below) *)
+Theorem c05_links_covered_by_datahash_only : forall sha1 fs gs,
+  Forall2 same_but_links fs gs -> check_sums sha1 fs = check_sums sha1 gs.
+Proof. exact check_sums_ignores_links. Qed.
+Print Assumptions c05_links_covered_by_datahash_only.
+
+(* ---- (b) the warm cache: a hit returns the members stored under the expected checksum
    and under the datahash the stored control records — found by NAME, nothing is
-   re-hashed, [x_ctl_hash] is the expected checksum itself ... *)
-Theorem c05_cache_addressing : forall b64 k h x,
-  cached_package b64 k h = Some x ->
-  h_q1 h = true /\ exists sum dh,
-    h_sum b64 h = Some sum /\ In (sum, x_ctl x) (k_ctl k) /\
-    c_datahash (x_ctl x) = [dh] /\ In (dh, x_dat x) (k_dat k) /\ x_ctl_hash x = sum.
+   re-hashed, [x_ctl_hash] is the expected checksum itself; the entries come from the
+   uncompressed tar of that name when there is one, else from the compressed file,
+   whose decompression is then stored under that name ... *)
+Theorem c05_cache_addressing : forall b64 ctl_view gunzip untar k h x k',
+  cached_package b64 ctl_view gunzip untar k h = (Some x, k') ->
+  h_q1 h = true /\ exists sum dh t,
+    h_sum b64 h = Some sum /\ In (sum, x_ctl_file x) (k_ctl k) /\ mk_ctl ctl_view (x_ctl_file x) = Some (x_ctl x) /\
+    c_datahash (x_ctl x) = [dh] /\ assoc_s dh (k_gz k) = Some (d_raw (x_dat x)) /\ x_ctl_hash x = sum /\
+    untar t = Some (d_files (x_dat x)) /\
+    ((In (dh, t) (k_tar k) /\ k' = k) \/
+     (assoc_s dh (k_tar k) = None /\ gunzip (d_raw (x_dat x)) = Some t /\
+      k' = {| k_ctl := k_ctl k; k_gz := k_gz k; k_tar := (dh, t) :: k_tar k |})).
 Proof. exact cached_package_by_name. Qed.
 Print Assumptions c05_cache_addressing.
 
-(* ... so a hit is authenticated exactly when population was: under the
-   population invariant it satisfies the chain, and population (which names
-   entries by the COMPUTED digests, after the checks) maintains the invariant *)
-Theorem c05_cache_hit_authentic : forall sha1 sha256 b64 k h x,
-  cache_ok sha1 sha256 k -> cached_package b64 k h = Some x -> Chain sha1 sha256 b64 h x.
-Proof. exact cached_package_chain. Qed.
+(* ... so a hit is authenticated exactly when population was: under the population
+   invariant (every member stored under the digest of its own bytes, every stored data
+   section passed the per-file check, every uncompressed tar is the decompression of
+   the compressed file of its name) the members a hit returns have the hashes in their
+   file names and the hit satisfies the chain *)
+Theorem c05_cache_hit_authentic : forall sha1 sha256 b64 ctl_view gunzip untar k h x k',
+  cache_ok sha1 sha256 gunzip untar k -> cached_package b64 ctl_view gunzip untar k h = (Some x, k') ->
+  Chain sha1 sha256 b64 ctl_view gunzip untar h x /\ cache_ok sha1 sha256 gunzip untar k'.
+Proof. exact cache_hit_authentic. Qed.
 Print Assumptions c05_cache_hit_authentic.
 
-Theorem c05_cache_population : forall sha1 sha256 b64 k h served r k',
-  opt_cache_ok sha1 sha256 k -> opt_dst_same sha1 sha256 k served ->
-  expand_uncached sha1 sha256 b64 k h served = (r, k') -> opt_cache_ok sha1 sha256 k'.
+(* Population — which names entries by the COMPUTED digests, after the checks —
+   maintains the invariant, whatever the outcome of the request. *)
+Theorem c05_cache_population : forall sha1 sha256 b64 first_name ctl_view gunzip untar k h served r k',
+  opt_cache_ok sha1 sha256 gunzip untar k -> opt_dst_same sha1 sha256 first_name ctl_view gunzip untar k served ->
+  expand_uncached sha1 sha256 b64 first_name ctl_view gunzip untar k h served = (r, k') -> opt_cache_ok sha1 sha256 gunzip untar k'.
 Proof. exact expand_uncached_keeps_cache_ok. Qed.
 Print Assumptions c05_cache_population.
 
 (* the boolean validator run on what the implementation installed decides
    exactly the readable chain *)
-Theorem c05_validator_decides : forall sha1 sha256 b64 sfx h x,
-  chain_tags sha1 sha256 b64 sfx h x = [] <-> Chain sha1 sha256 b64 h x.
+Theorem c05_validator_decides : forall sha1 sha256 b64 ctl_view gunzip untar sfx h x,
+  chain_tags sha1 sha256 b64 ctl_view gunzip untar sfx h x = [] <-> Chain sha1 sha256 b64 ctl_view gunzip untar h x.
 Proof. exact chain_tags_iff. Qed.
 Print Assumptions c05_validator_decides.
 
 (* ---- non-vacuity ------------------------------------------------------------------- *)
-Definition ex_file (sum : recsum) : dfile := {| f_name := "etc/f"; f_kind := FReg; f_body := [7]%N; f_sum := sum |}.
-Definition ex_apk (raw : N) (dh : list string) (sum : recsum) : apkfile :=
-  {| a_ctl := {| c_raw := [raw]; c_desc := "d"; c_datahash := dh |};
-     a_dat := {| d_raw := [9]%N; d_files := [ex_file sum] |} |}.
+(* oracles: identity hashes, members [1] (control, records datahash "09") / [2] (another
+   control) / [9] (data member holding etc/f and a hard link to it) / [8] (same entries,
+   the link retargeted) / [3] (signature member) *)
+Definition ex_first (r : list N) : option string := if bytes_eqb r [3]%N then Some ".SIGN.RSA.k" else Some ".PKGINFO".
+Definition ex_ctl (r : list N) : option (string * list string) :=
+  if bytes_eqb r [1]%N then Some ("d", ["09"]) else if bytes_eqb r [4]%N then Some ("nd", []) else Some ("other", ["09"]).
+Definition ex_file (n : string) (b : N) (sum : recsum) : dfile := {| f_name := n; f_kind := FReg; f_body := [b]; f_sum := sum; f_link := "" |}.
+Definition ex_link (n t : string) : dfile := {| f_name := n; f_kind := FLink; f_body := []; f_sum := SumNone; f_link := t |}.
+Definition ex_untar (t : list N) : option (list dfile) :=
+  if bytes_eqb t [9]%N || bytes_eqb t [9; 9]%N   (* entries after the end-of-archive marker are never read *)
+  then Some [ex_file "etc/f" 7 (SumSome [7]%N); ex_file "etc/g" 6 (SumSome [6]%N); ex_link "etc/l" "etc/f"]
+  else if bytes_eqb t [8]%N then Some [ex_file "etc/f" 7 (SumSome [7]%N); ex_file "etc/g" 6 (SumSome [6]%N); ex_link "etc/l" "etc/g"]
+  else if bytes_eqb t [5]%N then Some [ex_file "etc/f" 7 (SumSome [6]%N)]
+  else None.
+Notation ex_expand_package := (expand_package idf idf wit_b64 ex_first ex_ctl wit_gunzip ex_untar).
 Definition ex_h : handle := {| h_url := "u"; h_chk := "Q11" |}.
+Definition ex_apk (sig : bool) (ctl dat : N) : stream :=
+  {| s_members := (if sig then [[3]%N] else []) ++ [[ctl]; [dat]]; s_trail := [] |}.
 
-(* the genuine package installs, cold and then warm (second call in a new process: empty memo) *)
+(* the genuine package installs, signed or not, cold and then warm (second call in a new
+   process: empty memo), also after the uncompressed tar was removed from the cache *)
 Example c05_genuine_installs :
-  exists x k m, expand_package idf idf wit_b64 [] (Some empty_cache) ex_h (Some (ex_apk 1 ["09"] (SumSome [7]%N))) = (XOk x, Some k, m) /\
-    install true x = Some [("etc/f", [7]%N)] /\
-    exists x', expand_package idf idf wit_b64 [] (Some k) ex_h None = (XOk x', Some k, [(("u", "Q11"), XOk x')]) /\ x_dat x' = x_dat x.
-Proof. eexists _, _, _. split; [vm_compute; reflexivity|]. split; [vm_compute; reflexivity|]. eexists. split; vm_compute; reflexivity. Qed.
+  exists x k m, ex_expand_package [] (Some empty_cache) ex_h (Some (ex_apk true 1 9)) = (XOk x, Some k, m) /\
+    install true x = Some [("etc/f", [7]%N); ("etc/g", [6]%N); ("etc/l", [7]%N)] /\
+    fst (fst (ex_expand_package [] None ex_h (Some (ex_apk false 1 9)))) = XOk x /\
+    (exists x', ex_expand_package [] (Some k) ex_h None = (XOk x', Some k, [(("u", "Q11"), XOk x')]) /\ x_dat x' = x_dat x) /\
+    (exists x', ex_expand_package [] (Some {| k_ctl := k_ctl k; k_gz := k_gz k; k_tar := [] |}) ex_h None = (XOk x', Some k, [(("u", "Q11"), XOk x')]) /\ x_dat x' = x_dat x).
+Proof.
+  eexists _, _, _. split; [vm_compute; reflexivity|]. split; [vm_compute; reflexivity|]. split; [vm_compute; reflexivity|].
+  split; eexists; split; vm_compute; reflexivity.
+Qed.
 
 (* each substitution is refused *)
 Example c05_substitutions_refused :
-  fst (expand_uncached idf idf wit_b64 None ex_h (Some (ex_apk 2 ["09"] (SumSome [7]%N)))) = XErr EVerify /\   (* other control *)
-  fst (expand_uncached idf idf wit_b64 None ex_h (Some (ex_apk 1 ["0a"] (SumSome [7]%N)))) = XErr EVerify /\   (* data hash disagrees *)
-  fst (expand_uncached idf idf wit_b64 None ex_h (Some (ex_apk 1 ["09"] (SumSome [8]%N)))) = XErr ESums /\     (* per-file checksum *)
-  fst (expand_uncached idf idf wit_b64 None ex_h None) = XErr EFetch.
+  fst (expand_uncached idf idf wit_b64 ex_first ex_ctl wit_gunzip ex_untar None ex_h (Some (ex_apk true 2 9))) = XErr EVerify /\   (* other control *)
+  fst (expand_uncached idf idf wit_b64 ex_first ex_ctl wit_gunzip ex_untar None ex_h (Some (ex_apk true 1 8))) = XErr EVerify /\   (* other data: the datahash disagrees *)
+  fst (expand_uncached idf idf wit_b64 ex_first ex_ctl wit_gunzip ex_untar None ex_h (Some (ex_apk true 1 5))) = XErr ESums /\     (* per-file checksum *)
+  fst (expand_uncached idf idf wit_b64 ex_first ex_ctl wit_gunzip ex_untar None ex_h
+         (Some {| s_members := [[3]; [1]; [9]]%N; s_trail := [0]%N |})) = XErr EExpand /\                                          (* bytes after the data member *)
+  fst (expand_uncached idf idf wit_b64 ex_first ex_ctl wit_gunzip ex_untar None ex_h
+         (Some {| s_members := [[3]; [1]; [9]; [9]]%N; s_trail := [] |})) = XErr EVerify /\                                         (* a further member: hashed with the data section *)
+  fst (expand_uncached idf idf wit_b64 ex_first ex_ctl wit_gunzip ex_untar None ex_h None) = XErr EFetch.
 Proof. repeat split; vm_compute; reflexivity. Qed.
+
+(* without a recorded datahash a hard link can be retargeted: control [4] records no
+   datahash; data [9] and [8] differ only in where etc/l points; both are accepted and
+   install different bytes under etc/l (inside the stated tolerance: nothing but the
+   per-file records authenticates such a data section, and they say nothing about links) *)
+Definition ex_h4 : handle := {| h_url := "u"; h_chk := "4" |}.
+Definition ex_b64 (s : string) : option (list N) := if String.eqb s "4" then Some [4]%N else wit_b64 s.
+Example c05_link_retargeted :
+  exists x y, fst (expand_uncached idf idf ex_b64 ex_first ex_ctl wit_gunzip ex_untar None ex_h4 (Some (ex_apk false 4 9))) = XOk x /\
+              fst (expand_uncached idf idf ex_b64 ex_first ex_ctl wit_gunzip ex_untar None ex_h4 (Some (ex_apk false 4 8))) = XOk y /\
+              install true x = Some [("etc/f", [7]%N); ("etc/g", [6]%N); ("etc/l", [7]%N)] /\
+              install true y = Some [("etc/f", [7]%N); ("etc/g", [6]%N); ("etc/l", [6]%N)] /\
+              Chain idf idf ex_b64 ex_ctl wit_gunzip ex_untar ex_h4 x /\ Chain idf idf ex_b64 ex_ctl wit_gunzip ex_untar ex_h4 y.
+Proof.
+  eexists _, _. split; [vm_compute; reflexivity|]. split; [vm_compute; reflexivity|].
+  split; [vm_compute; reflexivity|]. split; [vm_compute; reflexivity|].
+  split; apply chain_tags_iff with (sfx := ""); vm_compute; reflexivity.
+Qed.
 
 (* a cache that something else wrote into is believed by name: the hit below
    returns control bytes [5] under the name of checksum [1] *)
 Example c05_cache_believes_names :
-  exists x, cached_package wit_b64 {| k_ctl := [([1]%N, {| c_raw := [5]%N; c_desc := "evil"; c_datahash := ["09"] |})];
-                              k_dat := [("09", {| d_raw := [9]%N; d_files := [] |})] |} ex_h = Some x /\
-            ~ Chain idf idf wit_b64 ex_h x.
-Proof. eexists. split; [vm_compute; reflexivity|]. vm_compute. intros (A & _). discriminate A. Qed.
+  exists x k', cached_package wit_b64 ex_ctl wit_gunzip ex_untar
+                 {| k_ctl := [([1]%N, [5]%N)]; k_gz := [("09", [9]%N)]; k_tar := [] |} ex_h = (Some x, k') /\
+               ~ Chain idf idf wit_b64 ex_ctl wit_gunzip ex_untar ex_h x.
+Proof. eexists _, _. split; [vm_compute; reflexivity|]. vm_compute. intros (A & _). discriminate A. Qed.
